@@ -157,3 +157,8 @@ Definition bundle_ops (b : name) (port : bool) (paths : list path) (id0 : N) : l
 (* ResolvePortRefs: one implicit signal (or bundle instance, for a bundle-valued port) per source-less group / per no-connect *)
 Definition portref_ops (i p : name) (o : obj) : list op := [OpInvent (SPortRef i p) o].
 Definition noconn_ops (nm : option name) (i p : name) (o : obj) : list op := [OpInvent (SNoConn nm i p) o].
+
+(* ResolvePortRefs.noconn_array_bundle: a no-connect on a bundle-valued port of an Instance Array gets no implicit Bundle Instance
+   but one new Signal per scalar member path (sub-bundles recursively): `sig.name = flatname(segments + [name], avoid=module.namespace); module.add(sig)` *)
+Definition noconn_member_ops (nm : option name) (i p : name) (paths : list (list name)) (id0 : N) : list op :=
+  map (fun pk => OpInvent (SNoConnMember nm i p (fst pk)) {| o_kind := KSig; o_id := snd pk |}) (number paths id0).
